@@ -107,7 +107,7 @@ def canon_vecs(maxlen):
     return [list(range(1, n + 1)) for n in range(maxlen + 1)]
 
 
-def lts_single_step(kinds, maxlen, maxparam, bats=("u", "b"), include_bad=True):
+def lts_single_step(kinds, maxlen, maxparam, bats=("u", "b"), include_bad=True, flavs=("static", "dyninit", "dynamic")):
     """head/tail/skip: one source diff or one parameter change from every (vector, parameter) state,
     in every flavour.  New items are 7/8; Append/Reset carry 0..3 items."""
     cases = []
@@ -121,16 +121,22 @@ def lts_single_step(kinds, maxlen, maxparam, bats=("u", "b"), include_bad=True):
                     for d in ds:
                         if not include_bad and not ok_in(d, n):
                             continue
-                        cases.append("%s static %s %d %s :: d:%s ; D" % (kind, bat, p, vec(l), d))
-                        cases.append("%s dyninit %s %d %s :: d:%s ; D" % (kind, bat, p, vec(l), d))
-                        cases.append("%s dynamic %s - %s :: l:%d ; D ; d:%s ; D" % (kind, bat, vec(l), p, d))
+                        if "static" in flavs:
+                            cases.append("%s static %s %d %s :: d:%s ; D" % (kind, bat, p, vec(l), d))
+                        if "dyninit" in flavs:
+                            cases.append("%s dyninit %s %d %s :: d:%s ; D" % (kind, bat, p, vec(l), d))
+                        if "dynamic" in flavs:
+                            cases.append("%s dynamic %s - %s :: l:%d ; D ; d:%s ; D" % (kind, bat, vec(l), p, d))
                     for q in range(maxparam + 1):
-                        cases.append("%s dyninit %s %d %s :: l:%d ; D" % (kind, bat, p, vec(l), q))
-                        cases.append("%s dynamic %s - %s :: l:%d ; D ; l:%d ; D" % (kind, bat, vec(l), p, q))
+                        if "dyninit" in flavs:
+                            cases.append("%s dyninit %s %d %s :: l:%d ; D" % (kind, bat, p, vec(l), q))
+                        if "dynamic" in flavs:
+                            cases.append("%s dynamic %s - %s :: l:%d ; D ; l:%d ; D" % (kind, bat, vec(l), p, q))
                 # before the first parameter value arrives
-                for d in ds:
-                    if ok_in(d, n):
-                        cases.append("%s dynamic %s - %s :: d:%s ; D ; l:2 ; D" % (kind, bat, vec(l), d))
+                if "dynamic" in flavs:
+                    for d in ds:
+                        if ok_in(d, n):
+                            cases.append("%s dynamic %s - %s :: d:%s ; D ; l:2 ; D" % (kind, bat, vec(l), d))
     return cases
 
 
@@ -191,14 +197,14 @@ def sort_single_step(maxlen, bats=("u", "b"), kinds=("sort", "sort_by", "sort_by
     return cases
 
 
-def rand_adapt_history(rng, kind, nev, fresh):
+def rand_adapt_history(rng, kind, nev, fresh, bats=("u", "b"), flavs=("static", "dyninit", "dynamic"), lone_polls=True):
     """one random multi-step history.  `fresh()` yields a new element value."""
-    bat = rng.choice(("u", "b"))
+    bat = rng.choice(bats)
     is_lts = kind in ("head", "tail", "skip")
     n0 = rng.randrange(6)
     src = [fresh() for _ in range(n0)]
     if is_lts:
-        flav = rng.choice(("static", "dyninit", "dynamic"))
+        flav = rng.choice(flavs)
         arg = "-" if flav == "dynamic" else str(rng.randrange(8))
     elif kind.startswith("filter"):
         flav, arg = "-", str(rng.randrange(256))
@@ -261,18 +267,18 @@ def rand_adapt_history(rng, kind, nev, fresh):
             break
         if r < 0.45:
             evs.append("d:" + one_diff())
-            if sortk or rng.random() < 0.6:
+            if sortk or not lone_polls or rng.random() < 0.6:
                 evs.append("D")
         elif r < 0.6:
             evs.append("b:" + "|".join(one_diff() for _ in range(rng.randrange(1, 5))))
-            if sortk or rng.random() < 0.6:
+            if sortk or not lone_polls or rng.random() < 0.6:
                 evs.append("D")
         elif r < 0.78 and is_lts and flav != "static":
             evs.append("l:%d" % rng.randrange(9))
             if rng.random() < 0.5:
                 evs.append("D")
         elif r < 0.9:
-            evs.append("p" if (rng.random() < 0.4 and not sortk) else "D")
+            evs.append("p" if (rng.random() < 0.4 and not sortk and lone_polls) else "D")
         elif r < 0.93 and is_lts and flav != "static":
             evs.append("el")
         elif r < 0.95:
@@ -285,7 +291,7 @@ def rand_adapt_history(rng, kind, nev, fresh):
     return head + " :: " + " ; ".join(evs)
 
 
-def rand_adapt(rng, kinds, n, maxev=30):
+def rand_adapt(rng, kinds, n, maxev=30, **kw):
     cases = []
     for _ in range(n):
         kind = rng.choice(kinds)
@@ -304,5 +310,5 @@ def rand_adapt(rng, kinds, n, maxev=30):
         else:
             def fresh():
                 return rng.randrange(40)
-        cases.append(rand_adapt_history(rng, kind, rng.randrange(3, maxev), fresh))
+        cases.append(rand_adapt_history(rng, kind, rng.randrange(3, maxev), fresh, **kw))
     return cases
